@@ -18,7 +18,7 @@ import (
 
 // PoW runs the difficulty / proof-of-work mutation alphabet on recorded main-net headers (chain id 1).
 func PoW(r *ev.Run, tier string) (evals int64, err error) {
-	bz, e := os.ReadFile("/repo/x/xibc/clients/light-clients/eth/types/testdata/update_headers.json")
+	bz, e := os.ReadFile(ev.Repo() + "/x/xibc/clients/light-clients/eth/types/testdata/update_headers.json")
 	if e != nil {
 		return 0, e
 	}
@@ -38,8 +38,12 @@ func PoW(r *ev.Run, tier string) (evals int64, err error) {
 		{"unmutated", func(h *ethclient.Header) {}, false},
 		{"nonce+1", func(h *ethclient.Header) { h.Nonce++ }, true},
 		{"mix-digest-flip", func(h *ethclient.Header) { h.MixDigest = append([]byte{}, h.MixDigest...); h.MixDigest[0] ^= 1 }, true},
-		{"difficulty+1", func(h *ethclient.Header) { h.Difficulty = new(big.Int).Add(new(big.Int).SetBytes(h.Difficulty), big.NewInt(1)).Bytes() }, true},
-		{"difficulty-1", func(h *ethclient.Header) { h.Difficulty = new(big.Int).Sub(new(big.Int).SetBytes(h.Difficulty), big.NewInt(1)).Bytes() }, true},
+		{"difficulty+1", func(h *ethclient.Header) {
+			h.Difficulty = new(big.Int).Add(new(big.Int).SetBytes(h.Difficulty), big.NewInt(1)).Bytes()
+		}, true},
+		{"difficulty-1", func(h *ethclient.Header) {
+			h.Difficulty = new(big.Int).Sub(new(big.Int).SetBytes(h.Difficulty), big.NewInt(1)).Bytes()
+		}, true},
 	}
 	if tier == "thorough" {
 		cases = append(cases,
